@@ -85,7 +85,7 @@ DispatchNext ==
      /\ Emit([script |-> "dgram", bytes |-> buf[1]])
 
 \* datagram: sequences of frames (C06); the frames are kept in pk[3] as a RAW list
-FrameSet == ValidFrames \cup MalformedFrames \cup TailJunk
+FrameSet == ValidFrames \cup MalformedFrames \cup TailJunk \cup SwallowFrames
 \* complete (framed) pieces anywhere, incomplete tails only at the end
 FramedSet == { f \in FrameSet : Len(f) >= 4 /\ Len(f) = 4 * (HLen(f) + 1) }
 FrameSeqs == UNION { { s \in [1..n -> FrameSet] : \A i \in 1..(n - 1) : s[i] \in FramedSet } : n \in 1..MaxFrames }
